@@ -106,7 +106,10 @@ Definition close255 (w v : N) : bool :=
 Definition value_ok (t : sty) (w : N) (v : option N) : bool :=
   match v with
   | None => false
-  | Some f => match t with UChar => close255 w f | _ => f =? cvF w end
+  | Some f => match t with
+              | UChar => close255 w f
+              | _ => match as_f64 w with Some e => f =? e | None => false end     (* the value itself, as a float64 *)
+              end
   end.
 Definition corner_ok (o : wopts) (m : wmesh) (r : mesh) (i : nat) (i' : Z) : bool :=
   (0 <=? i')%Z &&
